@@ -75,6 +75,17 @@ def _worker(a):
                 out.append(m_ + " (%s)" % tag)
             return r
         try:
+            # integer-typed reference cells first (a list of Python ints, an integer array): zero strain gives the unstrained B, the
+            # unstrained B gives zero strain, for both pairs of functions
+            for ic in ([4, 5, 6, 90, 90, 90], np.array([4, 4, 4, 90, 90, 90]), [3, 3, 5, 90, 90, 120]):
+                fc = [float(q_) for q_ in ic]
+                Bref = np.asarray(mod.form_b_mat(fc), dtype=float)
+                for nm_, fn_ in (("epsilon_to_b", mod.epsilon_to_b), ("epsilon_to_b_old", mod.epsilon_to_b_old)):
+                    if not L.close(fn_([0, 0, 0, 0, 0, 0], ic), Bref):
+                        out.append("%s(zero strain) on the integer-typed cell %s differs from form_b_mat of the same cell as floats (xfab.%s)" % (nm_, list(ic), modname))
+                for nm_, fn_ in (("b_to_epsilon", mod.b_to_epsilon), ("b_to_epsilon_old", mod.b_to_epsilon_old)):
+                    if not L.close(fn_(Bref, ic), np.zeros(6), scale=1.0):
+                        out.append("%s(unstrained B) on the integer-typed cell %s is not zero (xfab.%s)" % (nm_, list(ic), modname))
             n += 2
             # a reference cell that differs in the seventh digit is used first (results discarded): a value remembered per
             # (rounded) cell must not leak into the calls on cell0
